@@ -111,6 +111,21 @@ def build_definitions():  # noqa: PLR0915
                          doc=f"BlattWeisskopfSquared(z, {k}).evaluate() — the cached polynomial path"))
         reals[f"BlattWeisskopfSquared_{k}"] = Real(ffm.BlattWeisskopfSquared(z, sp.Integer(k)), [z], ())
         table.append(_bw_table_entry(poly, z, k))
+    # the defining expression for L = 0 on the WHOLE real z axis (sqrt(z) principal, complex argument of h_0):
+    # used by the witness theorem of the known finding "symbolic-L Hankel path vs integer-L polynomial path, z <= 0"
+    xc, zr = sp.Symbol("x"), sp.Symbol("z", real=True)
+    defs.append(TDef("SphericalHankel1C_0", [("x", C)], C, translator()(ffm.SphericalHankel1(0, xc).doit()),
+                     doc="SphericalHankel1(0, x).doit() for a complex argument"))
+
+    def hook_c(e, tr):
+        if isinstance(e, ffm.SphericalHankel1) and e.args[0] == 0:
+            return ("app", "SphericalHankel1C_0", [tr.tr(e.args[1])])
+        return None
+
+    defs.append(TDef("BlattWeisskopfHankelC_0", [("z", R)], R,
+                     X.XTranslator(hooks=[hook_c])(ffm._formulate_blatt_weisskopf(sp.Integer(0), zr)),
+                     doc="_formulate_blatt_weisskopf(0, z) for ANY real z (principal sqrt): what a symbolic L gives after L := 0"))
+    reals["BlattWeisskopfHankelC_0"] = Real(ffm._formulate_blatt_weisskopf(sp.Integer(0), zr), [zr], (zr,))
     # dispatcher over L and regenerated table
     lean_cases = "\n".join(f"  | {k} => BlattWeisskopfSquared_{k} z" for k in range(LMAX + 1))
     flt_cases = "\n".join(f"  | {k} => BlattWeisskopfSquared_{k} z" for k in range(LMAX + 1))
@@ -290,6 +305,8 @@ def points(name, rng, n):
         return c11.points(name, rng, max(4, n // 4))
     if name.startswith("SphericalHankel1_"):
         return [[rng.choice([1.0, rng.uniform(0.05, 30)])] for _ in range(max(4, n // 4))]
+    if name == "BlattWeisskopfHankelC_0":
+        return [[rng.choice([-1.0, 1.0]) * 10 ** rng.uniform(-2, 1)] for _ in range(max(6, n // 4))]
     if name.startswith(("BlattWeisskopfHankel_", "BlattWeisskopfSquared_")):
         return [[rng.choice([1.0, 10 ** rng.uniform(-4, 4)])] for _ in range(max(4, n // 4))]
     for _ in range(n):
@@ -473,6 +490,16 @@ def _history_tie(chk, ctx):
     hist.run_correspondence(chk, ctx["rng"], 60 if ctx["tier"] == "quick" else 600)
 
 
+KNOWN_CLASS = "symbolic-L Hankel path vs integer-L polynomial path, z <= 0"
+
+
+def signature_of(f):
+    sig = {"what": f.get("what")}
+    if f.get("class"):
+        sig["class"] = f["class"]
+    return sig
+
+
 PROP = _Prop(
     prop_id="C12",
     sources=SOURCES,
@@ -486,6 +513,7 @@ PROP = _Prop(
     extra_imports=("Ampverif.Lemmas.C12Table",),
     expected_facts=EXPECTED_FACTS,
     post=_history_tie,
+    signature_of=signature_of,
     trusted=("history tie: the canonicaliser of tools/corr/C12_history.py (structural equality with the public "
              "function API decides which lineshape a builder result is)",
              "the Blatt-Weisskopf table (c_L, denominator coefficients) is extracted with SymPy's Poly and re-proved "
